@@ -44,7 +44,7 @@ try:
     verdict["changed"] = changed
     verdict["touches_tests"] = any(f.endswith("_test.go") for f in changed)
     # suite with the patch
-    rc, out = sh("python3 /verif/tools/baseline.py %s --runs 2" % wt, timeout=3600)
+    rc, out = sh("python3 /verif/tools/baseline.py %s --runs 4" % wt, timeout=3600)
     verdict["suite_passes_with_patch"] = rc == 0
     verdict["suite_summary"] = out.strip().splitlines()[-6:]
     # demo
